@@ -64,6 +64,7 @@ impl Validator {
         // DEFAULT values and value assignments are linked against the types they refer to, so the
         // references in the constraints of *all* definitions are resolved first
         let mut second_pass = keys.clone();
+        let mut components_of_linked = HashSet::<String>::new();
         while let Some(key) = keys.pop() {
             if matches![
                 self.tlds.get(&key),
@@ -103,12 +104,7 @@ impl Validator {
                     _ => (),
                 }
             }
-            if self.has_components_of_notation(&key) {
-                if let Some((k, ToplevelDefinition::Type(mut tld))) = self.tlds.remove_entry(&key) {
-                    tld.ty.link_components_of_notation(&self.tlds);
-                    self.tlds.insert(k, ToplevelDefinition::Type(tld));
-                }
-            }
+            self.link_components_of_notation(&key, &mut components_of_linked);
             if self.has_choice_selection_type(&key) {
                 if let Some((k, ToplevelDefinition::Type(mut tld))) = self.tlds.remove_entry(&key) {
                     if let Err(mut e) = tld.ty.link_choice_selection_type(&self.tlds) {
@@ -395,6 +391,27 @@ impl Validator {
                 _ => false,
             })
             .unwrap_or(false)
+    }
+
+    /// Expands the `COMPONENTS OF` notation of a definition, after that of the types it includes:
+    /// the included type contributes *all* its components, also those it includes itself.
+    fn link_components_of_notation(&mut self, key: &String, linked: &mut HashSet<String>) {
+        if !linked.insert(key.clone()) || !self.has_components_of_notation(key) {
+            return;
+        }
+        let included: Vec<String> = match self.tlds.get(key) {
+            Some(ToplevelDefinition::Type(t)) => {
+                t.ty.components_of_references().into_iter().cloned().collect()
+            }
+            _ => vec![],
+        };
+        for name in &included {
+            self.link_components_of_notation(name, linked);
+        }
+        if let Some((k, ToplevelDefinition::Type(mut tld))) = self.tlds.remove_entry(key) {
+            tld.ty.link_components_of_notation(&self.tlds);
+            self.tlds.insert(k, ToplevelDefinition::Type(tld));
+        }
     }
 
     fn has_components_of_notation(&mut self, key: &String) -> bool {
